@@ -12,6 +12,10 @@ def histories(tier):
         "gap+rollover": [("open", {}), ("w", 0, 5), ("w", 7, 6), ("close",)],
         "blocks": [("open", {}), ("wb", [0, 5, 13], [0, 2, 6], 9), ("close",)],
         "append_same_file": [("open", {}), ("w", 0, 2), ("w", 2, 1), ("w", 3, 9), ("close",)],
+        # a call that is refused (write into the past) in the middle; the recorder keeps the error object, goes on and closes
+        "refused_call_midway": [("open", {}), ("w", 0, 5), ("w", 2, 2), ("w", 7, 6), ("close",)],
+        # ... and a call refused by the C library (a restarted session entering a finalized period)
+        "resumed_session_refused_call": [("open", {}), ("w", 0, 5), ("close",), ("open", {"uuid": "s2"}), ("w", 0, 2), ("w", 40, 2), ("close",)],
     }
     if tier != "quick":
         layouts["two_sessions"] = [("open", {}), ("w", 0, 5), ("close",), ("open", {"uuid": "s2", "start_delta": 30}), ("w", 0, 6), ("close",)]
@@ -66,7 +70,21 @@ def run_history(item):
 
         r = host.run(top, os.path.join(top, cfg["ch"]), cfg, ops, seed, fsctl.plan(pause_before=fsctl.ALL_KINDS_MASK), on_pause)
         nops = len(r["ops"])
-        if r["status"] != 0 or any(c["status"] != "ok" for c in r["calls"]):
+        m_chk = rf.Model()
+        expect_exc = set()
+        for ci, op in enumerate(ops):
+            if op[0] == "open":
+                m_chk.open_session(cfg)
+            elif op[0] in ("w", "wb"):
+                g_, b_, l_ = rf.op_blocks(op, m_chk.cursor)
+                if m_chk.check_blocks(g_, b_, l_) is None:
+                    if m_chk.apply_write(g_, b_, [b""] * l_)[1] is not None:
+                        expect_exc.add(ci)  # enters a period finalized by the earlier session
+                else:
+                    expect_exc.add(ci)  # the history contains this refused call on purpose
+            elif op[0] == "close":
+                m_chk.close_session()
+        if r["status"] != 0 or any((c["status"] != "ok") != (c["i"] in expect_exc) for c in r["calls"]):
             bad({"class": "unfaulted_run_failed"}, "status %r calls %r" % (r["status"], r["calls"]))
         errs, _ = obs.observe(final, "after close", expect_all=final)
         part["evaluations"] += 1
@@ -173,8 +191,41 @@ def run_history(item):
 
 def replay(case):
     os.environ["VERIF_SEED"] = str(case.get("seed", 0))
-    part = run_history((case["cfg"], [tuple(o) for o in case["ops"]], case.get("label", "replay gap+rollover")))
+    item = (case["cfg"], [tuple(o) for o in case["ops"]], case.get("label", "replay gap+rollover"))
+    part = run_close_in_process(item) if case.get("in_process") else run_history(item)
     return [(v["key"], v["detail"]) for v in part["violations"]]
+
+
+def run_close_in_process(item):
+    """The clean-close clause judged while the recording process is still alive: after close() has returned -
+    whatever the recorder still holds (it keeps the error objects of refused calls) - no tmp. file remains and
+    every accepted sample is readable."""
+    import digital_rf as drf
+    from .. import rfrun
+
+    cfgd, ops, label = item
+    part = core.new_part()
+    cfg = rf.Cfg(**cfgd)
+    top = core.new_scratch()
+    case = {"cfg": cfgd, "ops": ops, "seed": core.seed(), "label": label, "in_process": True}
+    try:
+        run = rfrun.execute(cfg, [tuple(o) for o in ops[1:]], core.seed(), top)  # (execute opens the first session itself)
+        left = [f for f in crash.tree_files(top) if os.path.basename(f).startswith("tmp.")]
+        part["evaluations"] += 1
+        if left:
+            part["violations"].append(core.Violation({"class": "tmp_left_after_close", "where": "recording_process_still_alive"}, case,
+                                                     "close() has returned (error objects of refused calls still held): %s" % left))
+        reader = drf.DigitalRFReader(top)
+        errs, _ = rfrun.oracle_roundtrip(run, reader, "linear", edge_limit=12)
+        reader.close()
+        for key, detail in errs[:2]:
+            part["violations"].append(core.Violation(dict(key, where="recording_process_still_alive"), case, detail))
+        part["outcomes"]["close_in_process refused=%d" % sum(1 for r_ in run.records if r_.get("status") == "exc")] += 1
+        part["states"].add(core.canon(("inproc", label)))
+        part["traces"] += 1
+    finally:
+        core.rm(top)
+    return part
 
 
 def main(tier):
@@ -186,7 +237,7 @@ def main(tier):
               "truncate, close, rename, mkdir, unlink) and the tree inspected (raw h5py on every final-named file, SHA-256 "
               "persistence, lsdrf, DigitalRFReader bounds + full read == union of finalized files); every write is also torn "
               "(half the bytes, then _exit); for one history per mode the process is really killed at every boundary and the "
-              "tree compared with the paused one; and after a real kill at every (quick: every other) boundary a new recorder process re-opens the channel and records the same periods again (kill-then-restart histories). A point is non-trivial/distinct per (history, operation index, set of final files).")
+              "tree compared with the paused one; the histories containing a refused call are also run in-process and judged right after close() returns; and after a real kill at every (quick: every other) boundary a new recorder process re-opens the channel and records the same periods again (kill-then-restart histories). A point is non-trivial/distinct per (history, operation index, set of final files).")
         % ("" if tier == "quick" else ", two sessions, single-sample calls"),
         assumptions=["crash = death of the process without loss of the OS page cache (the on-disk state after a kill at point i is what another process sees at point i)",
                      "operation stream of the HDF5 actually linked (system 1.10.8)"],
@@ -196,6 +247,8 @@ def main(tier):
     rot = core.seed() % len(hs)
     hs = hs[rot:] + hs[:rot]
     for part in core.pmap(run_history, hs, chunksize=1, isolate=False):
+        chk.merge(part)
+    for part in core.pmap(run_close_in_process, [h for h in hs if "refused" in h[2]], chunksize=1):
         chk.merge(part)
     chk.nontrivial = chk.state_hashes
     return chk.finish()
